@@ -23,6 +23,12 @@ try:
         rc, o = sh(os.environ["SEED_PRE"], cwd=wt); assert rc == 0, o
         res["pre_cmd"] = os.environ["SEED_PRE"]
     rc, o = sh("go build ./... && go test -count=1 ./%s/" % pkg, cwd=wt)
+    tries = 1
+    while rc != 0 and "TestTokenBucketFilter" in o and o.count("--- FAIL") <= 2 and tries < 4:
+        # vnet's TestTokenBucketFilter measures real-time throughput and is flaky under load on the unchanged code too
+        rc, o = sh("go test -count=1 ./%s/" % pkg, cwd=wt)
+        tries += 1
+    res["existing_tests_runs"] = tries
     res["existing_tests_pass_with_patch"] = (rc == 0)
     if rc != 0: res["existing_tests_output"] = o[-1500:]
     shutil.copy(demo, os.path.join(wt, pkg, "zz_seed_demo_test.go"))
